@@ -183,6 +183,15 @@ def handle (cmd : String) (args : List String) : Option String :=
         let r := runOps d Cur.init ops
         let c := r.2
         some (joinStrs r.1 ++ s!" | {c.pos} {readStr (c.position d)} {c.remainingBytes d} {optStr (c.remaining d)} {if c.isEmpty d then 1 else 0} {if c.finish d then "ok" else "eO"}")
+  | "hd.comp", [dl, il] =>
+    match dl.toNat?, il.toNat? with
+    | some dl, some il =>
+      let idxs := [0, 1, 2, 5, 6, 7, 12, 13, MAXU / 2, MAXU]
+      let marks := idxs.map (fun i => if (compGet dl il i).isSome then "o" else "e")
+      -- value records of the empty value format: item size 0
+      let vr := s!"{compLen dl 0}{if (compGet dl 0 0).isSome then "o" else "e"}"
+      some (" ".intercalate ([toString (compLen dl il)] ++ marks ++ [vr]))
+    | _, _ => none
   | "hd.fd.read", [hex, o, w] =>
     match parseHex? hex, o.toNat?, w.toNat? with
     | some d, some o, some w =>
